@@ -403,6 +403,25 @@ def refuse_peeled_loop(rid: str, drv: FuncInfo):
                                     f'is peeled off the loop; the trip count is not decided for this form')
 
 
+def refuse_comprehension_loop(ctx, rid: str, drv: FuncInfo):
+    """The iteration loop written as a comprehension ([self._one_iteration() for _ in range(number)]) performs the
+    same trips, but the trip rules read loops as statements with events per trip: undecided for this form."""
+    roles = roles_of(ctx)
+    try:
+        er = roles.eval_routine
+    except Exception:
+        return
+    erq = roles.fq(er)
+    for n in ast.walk(drv.node):
+        if isinstance(n, (ast.ListComp, ast.GeneratorExp, ast.SetComp, ast.DictComp)):
+            for c in ast.walk(n):
+                if isinstance(c, ast.Call):
+                    for g in ctx.pta.internal_callees(drv, c):
+                        if roles.fq(g) == erq or erq in roles.reach(g):
+                            raise AnalysisError(f'{rid}: {drv.short} performs its iterations inside a comprehension '
+                                                f'(line {n.lineno}); the trip rules are not decided for this form')
+
+
 def is_diagnostic_call(ctx, f: FuncInfo, call: ast.Call) -> bool:
     """A logging call (method of a logging.Logger / function of the logging module) or print: writes outside the
     program state, keeps none of its arguments."""
